@@ -39,7 +39,7 @@ impl InlineParser {
     //
     pub fn skip_token(&self, state: &mut InlineState) {
         #[cfg(mdit_verif)]
-        let _verif_frame = crate::verif_hooks::Frame::enter(state.level);
+        let _verif_frame = crate::verif_hooks::Frame::enter('S', state.level);
         let pos = state.pos;
         let mut ok = None;
 
@@ -87,7 +87,7 @@ impl InlineParser {
     //
     pub fn tokenize(&self, state: &mut InlineState) {
         #[cfg(mdit_verif)]
-        let _verif_frame = crate::verif_hooks::Frame::enter(state.level);
+        let _verif_frame = crate::verif_hooks::Frame::enter('I', state.level);
         let end = state.pos_max;
 
         while state.pos < end {
